@@ -263,7 +263,7 @@ CHECKS["C20"] = dict(
     technique="stateless model checking of the implementation under a cooperative scheduler: every schedule of 2-3 worker bodies with a bounded number of preemptions at interposed library/system calls, plus every single preemption at function-boundary granularity; ThreadSanitizer free-running pass as side condition",
     level_text="Seven worker bodies (export plain/gzip/xz to a descriptor and read back; export plain/gzip to named files with two rotations; read a prepared file and render every item; build, copy and serialise blocks) run as real threads of which exactly one is runnable. Level 1: scheduling points = write, writev, read, rename, close, fstat, inet_ntop, deflate, lzma_code (interposed in the executable; calls that fill a caller-owned buffer - read, fstat, inet_ntop, deflate, lzma_code - have a second point right after they return); all schedules with <= P preemptions of all 28 unordered body pairs (and body triples in the thorough tier) are enumerated by DFS over choice prefixes; every thread's digest (output bytes, decoded dump, rendered text) must equal its sequential digest; ASan build. Level 2: library compiled with -finstrument-functions, every function entry/exit is a scheduling point; for every ordered pair (A,B) and every point i of A: A runs to i, B runs to completion, A resumes. Side condition: the same bodies free-running on 2,4,8,16 threads under ThreadSanitizer with yields injected at the level-1 points.",
     level_note="Trusted: the scheduler serialises threads, so unsynchronised accesses between two scheduling points are invisible to it - this atomicity assumption is closed by the ThreadSanitizer pass (a different, sampling technique used only as side condition). Replay of a choice prefix that meets a smaller enabled set is a hard harness error. More than one preemption is explored only at level 1; more than 3 threads only free-running.",
-    stages=[dict(harness="sched", variant="asan", args=["--level", "1"], link=["-rdynamic"], share=0.55),
+    stages=[dict(harness="sched", variant="asan", args=["--level", "1"], link=["-rdynamic"], share=0.55, max_alloc_mb=512),   # the xz encoder (preset 6) allocates ~70 MiB in one piece
             dict(harness="sched", variant="instr", harness_variant="plain", args=["--level", "2"], link=["-rdynamic"], prefix="l2_", share=0.85),
             dict(harness="sched", variant="tsan", flags=["-DTSAN_PASS"], link=["-rdynamic"], prefix="tsan_", replayable=False)],
     rule="level 1: DFS over choice prefixes, every schedule within the preemption bound; level 2: (ordered pair, preemption point) enumerated; a schedule is non-trivial if it differs from the default (no preemption) schedule; all distinct",
